@@ -73,4 +73,55 @@ theorem C18_star_one_level (p : String) (hp : (p == "**") = false) (cs : List St
     | nil => exact ⟨c, rfl⟩
     | cons c' cs => rw [globComps] at h; simp at h
 
+theorem mem_foldl_addFile (l : List (List String)) : ∀ (acc : List (List String)) (x : List String),
+    x ∈ l.foldl addFile acc ↔ x ∈ acc ∨ x ∈ l := by
+  induction l with
+  | nil => intro acc x; simp
+  | cons a l ih =>
+    intro acc x
+    rw [List.foldl_cons, ih]
+    unfold addFile
+    split
+    · next h =>
+      have ha : a ∈ acc := by simpa using h
+      constructor
+      · rintro (h1 | h1)
+        · exact Or.inl h1
+        · exact Or.inr (List.mem_cons_of_mem _ h1)
+      · rintro (h1 | h1)
+        · exact Or.inl h1
+        · rcases List.mem_cons.mp h1 with rfl | h2
+          · exact Or.inl ha
+          · exact Or.inr h2
+    · simp only [List.mem_append, List.mem_singleton, List.mem_cons]
+      tauto
+
+theorem nodup_foldl_addFile (l : List (List String)) : ∀ (acc : List (List String)), acc.Nodup → (l.foldl addFile acc).Nodup := by
+  induction l with
+  | nil => intro acc h; exact h
+  | cons a l ih =>
+    intro acc h
+    rw [List.foldl_cons]
+    apply ih
+    unfold addFile
+    split
+    · exact h
+    · next hc =>
+      have : a ∉ acc := by simpa using hc
+      exact List.nodup_append.mpr ⟨h, List.nodup_singleton a, by
+        intro x hx y hy; rw [List.mem_singleton.mp hy]; exact fun hxy => this (hxy ▸ hx)⟩
+
+/-- **Several targets: each file once**, and exactly the union of what the targets select on their own (overlapping, nested or repeated
+targets included). -/
+theorem C18_many (targets : List (List String × List (List String))) (recursive : Bool) (inc exc : List String) :
+    (collectMany targets recursive inc exc).Nodup ∧
+    ∀ x, x ∈ collectMany targets recursive inc exc ↔ ∃ t ∈ targets, ∃ rel ∈ select t.2 recursive inc exc, x = t.1 ++ rel := by
+  unfold collectMany
+  refine ⟨nodup_foldl_addFile _ [] List.nodup_nil, fun x => ?_⟩
+  rw [mem_foldl_addFile]
+  simp only [List.not_mem_nil, false_or, List.mem_flatMap, List.mem_map]
+  constructor
+  · rintro ⟨t, ht, rel, hrel, rfl⟩; exact ⟨t, ht, rel, hrel, rfl⟩
+  · rintro ⟨t, ht, rel, hrel, rfl⟩; exact ⟨t, ht, rel, hrel, rfl⟩
+
 end PV.C18
